@@ -454,6 +454,97 @@ func checkC12(c *Ctx, r *Report) {
 					whyLoop = "the suite returned is not the first element of the caller's list (in list order) found in the advertised set"
 				}
 			}
+			// shape C: membership decided by scanning the advertised records (possibly in a helper)
+			// instead of a set — per path: a preference is returned only where it was found equal to
+			// the suite of an advertised record, and the preferences are walked in ascending order
+			if !okLoop {
+				goodC, nC := true, 0
+				whyC := ""
+				completeC := enumPaths(sel, 2, 200000, func(p CPath) {
+					ret, isRet := p.Last().(*ssa.Return)
+					if !isRet || ret.Parent() != sel || isNilConst(p.Resolve(ret.Results[0])) {
+						return
+					}
+					occs := p.OccsPos()
+					discAt := -1
+					var discCall *ssa.Call
+					for i, oc := range occs {
+						for _, d := range disc {
+							if oc.In == d {
+								discAt = i
+								discCall, _ = oc.In.(*ssa.Call)
+							}
+						}
+					}
+					if discAt < 0 || discCall == nil {
+						return // the single-suite return
+					}
+					nC++
+					// the returned element: &eff[idx] or the address of a copy of eff[idx]
+					rv := p.Resolve(ret.Results[0])
+					var ridx ssa.Value
+					var copyCell *ssa.Alloc
+					switch x := rv.(type) {
+					case *ssa.Alloc:
+						copyCell = x
+						for i := len(occs) - 1; i >= 0; i-- {
+							if st, ok := occs[i].In.(*ssa.Store); ok && st.Addr == ssa.Value(x) {
+								ridx = elemIndex(st.Val)
+								break
+							}
+						}
+					case *ssa.IndexAddr:
+						if x.X == ssa.Value(eff) {
+							ridx = x.Index
+						}
+					}
+					if ridx == nil || !ascending(ridx) {
+						goodC, whyC = false, "the suite returned is not an element of the caller's list at an ascending index"
+						return
+					}
+					// found equal to an advertised record's suite on this path
+					member := false
+					for _, rel := range p.relations() {
+						if rel.Op != token.EQL {
+							continue
+						}
+						for _, pr := range [][2]ssa.Value{{rel.X, rel.Y}, {rel.Y, rel.X}} {
+							a, isA := p.Resolve(pr[0]).(*ssa.UnOp)
+							b, isB := p.Resolve(pr[1]).(*ssa.UnOp)
+							if !isA || !isB || a.Op != token.MUL || b.Op != token.MUL {
+								continue
+							}
+							// one side: the preference (the copy that is returned, or eff[idx])
+							isPref := false
+							if copyCell != nil && (a.X == ssa.Value(copyCell) || p.AP(a.X).Root == ssa.Value(copyCell)) {
+								isPref = true
+							}
+							if ia, ok := a.X.(*ssa.IndexAddr); ok && ia.X == ssa.Value(eff) && ia.Index == ridx {
+								isPref = true
+							}
+							// other side: the suite of a record of the discovery result
+							ap := p.AP(b.X)
+							isAdv := false
+							// (the suite is an embedded struct of the record: its selector is elided from
+							// access paths, so it is recognised by its type)
+							if ex, ok := ap.Root.(*ssa.Extract); ok && ex.Tuple == ssa.Value(discCall) && strings.HasSuffix(types.TypeString(b.Type(), nil), "pkg/ipmi.CipherSuite") {
+								isAdv = true
+							}
+							if isPref && isAdv {
+								member = true
+							}
+						}
+					}
+					if !member {
+						goodC, whyC = false, "a preference is returned on a path that did not find it among the advertised suites"
+					}
+				})
+				if completeC && nC > 0 && goodC {
+					okLoop = true
+				} else if whyC != "" {
+					whyLoop = whyC
+				}
+			}
 			r.Check(okLoop, name+"|first advertised preference", sel.Pos(), "ascending walk of the caller's list, membership in the advertised set, first member returned", whyLoop)
 
 			// exhaustion sentinel; discovery error propagated
